@@ -60,6 +60,7 @@ def lifecycle(sx, server, fbd, echo, first, K, tmo, full=False, second=None, qui
     pc_valid = []
     t_reply = [None]       # when the peer's close frame arrived while we were already closing
     log = []
+    queued_used = []     # steps at which octets were parked on the synced send queue
 
     def own_lost(reason):
         if not lost[0]:
@@ -86,6 +87,7 @@ def lifecycle(sx, server, fbd, echo, first, K, tmo, full=False, second=None, qui
         else:
             ev = sx.choice("ev%d" % step, len(EVENTS))
         name = EVENTS[ev]
+        var = 0
         log.append(name)
         if lost[0] and name in ("peerClose", "peerData", "peerPing", "peerViolation", "peerDrop", "ownDrop"):
             continue            # the transport is gone: the peer cannot deliver anything any more
@@ -111,8 +113,17 @@ def lifecycle(sx, server, fbd, echo, first, K, tmo, full=False, second=None, qui
                     p.sendClose(code)
                 sx.cover("close:local")
             elif name == "send":
+                # plain, or through the synced / chopped send queue (octets then leave with the reactor's next turns - possibly after a close)
+                var = sx.choice("sendVar%d" % step, 3)
                 try:
-                    p.sendMessage(b"data", isBinary=True)
+                    if var == 0:
+                        p.sendMessage(b"data", isBinary=True)
+                    elif var == 1:
+                        p.sendMessage(b"sync1", isBinary=True, sync=True)
+                        p.sendMessage(b"sync2", isBinary=True, sync=True)
+                    else:
+                        p.sendMessage(b"fragmented-sync", isBinary=True, fragmentSize=4, sync=True)
+                        p.sendMessage(b"after", isBinary=True)
                 except Disconnected:
                     pass
             elif name == "ping":
@@ -171,7 +182,12 @@ def lifecycle(sx, server, fbd, echo, first, K, tmo, full=False, second=None, qui
             else:
                 sx.fail("unexpected-exception", info="%s in %s: %r" % (type(e).__name__, name, e))
                 return ["exc"]
-        wslib.drain(clock)
+        if name == "send" and var != 0:
+            queued_used.append(step)
+        if not (name == "send" and var != 0):
+            # events are separated by reactor turns - except that octets parked on the synced send queue are still waiting when the next
+            # event happens (the queue drains with 10 microsecond timer calls)
+            wslib.drain(clock)
         note_state()
     info = dict(events=log, server=server, fbd=fbd, echo=echo)
     # ---- bounded-time: once closing began, CLOSED is reached within the configured timeouts
@@ -242,7 +258,8 @@ def lifecycle(sx, server, fbd, echo, first, K, tmo, full=False, second=None, qui
         wasClean, code, reason = closes[0][2], closes[0][3], closes[0][4]
         if wasClean is True or wasClean == True:  # noqa
             sx.cover("end:clean")
-            sx.check(len(cf) == 1 and len(peer_close) >= 1, "clean=>close-frames-in-both-directions", info=info)
+            sx.check(len(cf) == 1 and len(peer_close) >= 1, "clean=>close-frames-in-both-directions", info=info,
+                     known=[("C05-server-close-reply-behind-sync-queue", bool(queued_used) and server)])
             # a peer that sends several close frames violates the protocol itself: which one is "the peer's" is undefined
             if len(peer_close) == 1:
                 pcode, preason = peer_close[0]
